@@ -223,6 +223,6 @@ def parts():
     return [
         Part("permutations", check, strategy=case_st(4), budget={"quick": 500, "thorough": 0}, shrink_budget=250),
         Part("permutations8", check, strategy=case_st(8), budget={"quick": 0, "thorough": 20000}, shrink_budget=250),
-        Part("topology_permutations", check_topology, strategy=topology_case(4), budget={"quick": 1500, "thorough": 60000}),
+        Part("topology_permutations", check_topology, strategy=topology_case(4), budget={"quick": 1500, "thorough": 60000}, fuzz={"thorough": 10000}),
         Part("connect_permutations", check_connect, strategy=connect_case(4), budget={"quick": 600, "thorough": 40000}),
     ]
